@@ -33,7 +33,7 @@ PROP_TAGS = {
     "C10": ["rebalance"],
     "C11": ["rebalance"],
     "C12": ["probe-claimall"],
-    "C13": ["Claim"],
+    "C13": ["claim-with-entitlement"],
     "C14": ["weight-decay", "gov-accept"],
     "C15": ["Redelegate", "probe-redeleg"],
     "C16": ["gov-accept", "gov-reject"],
